@@ -1,4 +1,5 @@
 import WcModel.Proofs.GlobTop
+import WcModel.Proofs.GlobFollow
 import WcModel.Proofs.GlobList
 /-
   C05 — glob returns exactly the paths the pattern denotes on the real tree.
@@ -27,10 +28,15 @@ import WcModel.Proofs.GlobList
   tree: `deep_iff_below` — what a `**` expansion yields is exactly the one-level listing of the
   directories `Below` the starting one (`Proofs/GlobDeep.lean`; this lemma holds with FOLLOW
   and `***` too, as "some fuel").
-  Also proved: the executable oracle is sound for the inductive specification.
-  NOT proved: the FOLLOW / `***` variant of `C05_partial` (needs monotonicity of the walker in
-  the fuel through `_glob`'s continuation); `_GlobSplit` output satisfies `WFParts` / the shape
-  facts (checked by K5 on every generated pattern); completeness of `denoteList`.
+  Also proved: executable = declarative for the specification (`spec_exec_iff`,
+  `spec_exec_top_iff`: `denoteList` / `denoteTop` with a large enough `**` depth enumerate
+  exactly `Denotes` / `DenotesTop`), so the oracle of the failing-input search IS the spec.
+  With FOLLOW / `***` (`C05_partial_follow`): the same equivalence below a directory, as
+  "for some fuel" — the walker's results grow with the fuel (`globParts_mono`), so the fuels of
+  nested expansions merge; on a cyclic tree no single fuel serves every path, which is why the
+  statement cannot fix one.  (The first-part plumbing of `C05_partial` is not repeated for it.)
+  NOT proved: `_GlobSplit` output satisfies `WFParts` and the two shape facts in `TopOK`
+  (checked on every pattern of the K5 split stream, see `checks/C05.py`).
   The Bash clause is validated in the thorough tier (`denoteTop` vs bash 5.2), not proved.
 -/
 namespace WcModel.C05
@@ -39,6 +45,14 @@ namespace WcModel.C05
 theorem spec_exec_sound (fs : FS) (c : WalkCfg) (fuel : Nat) (parts : List GPart) (d : Dir) (v : Y)
     (h : v ∈ denoteList fs c true fuel parts d) : Denotes fs c parts d v :=
   denoteList_sound fs c fuel parts d v h
+
+/-- **executable = declarative**, below a directory … -/
+theorem spec_exec_iff (fs : FS) (c : WalkCfg) (parts : List GPart) (d : Dir) (v : Y) :
+    (∃ fuel, v ∈ denoteList fs c true fuel parts d) ↔ Denotes fs c parts d v := denoteList_iff fs c parts d v
+
+/-- … and for whole patterns -/
+theorem spec_exec_top_iff (fs : FS) (c : WalkCfg) (parts : List GPart) (v : Y) :
+    (∃ fuel, v ∈ denoteTop fs c true fuel parts) ↔ DenotesTop fs c parts v := denoteTop_iff fs c parts v
 
 theorem below_sound (fs : FS) (c : WalkCfg) (long : Bool) (fuel : Nat) (d d' : Dir)
     (h : d' ∈ belowList fs c long fuel d) : Below fs c long d d' := belowList_sound fs c long fuel d d' h
@@ -68,6 +82,13 @@ theorem C05_partial_results (w : WCtx) (fs : FS) (hc : w.followLinks = false) (f
     exact ⟨v, (C05_partial w.toWalkCfg fs hc fuel hf parts hl hwf hag ht v).1 hv, he, rfl⟩
   · rintro ⟨v, hv, he, rfl⟩
     exact ⟨v, ⟨(C05_partial w.toWalkCfg fs hc fuel hf parts hl hwf hag ht v).2 hv, he⟩, rfl⟩
+
+/-- **C05_partial with FOLLOW / `***`**, below a directory: for some fuel, the walker returns
+    `v` iff the part list denotes it there (no hypothesis on links, long stars or tree height). -/
+theorem C05_partial_follow (c : WalkCfg) (fs : FS) (absPat : Bool) (parts : List GPart) (d : Dir)
+    (hwf : WFParts parts) (hag : SegAgree fs c parts) (hd : fs.locIsDir d.loc = true) (v : Y) :
+    (∃ fuel, v ∈ results (globParts c fs absPat fuel parts d.path d.loc)) ↔ Denotes fs c parts d v :=
+  globParts_iff_denotes_follow c fs absPat parts d.path d.loc hwf hag hd v
 
 /-- the heart of it: a `**` expansion (any matcher, with or without FOLLOW / `***`) yields
     exactly the one-level listings of the directories `Below` the starting one -/
